@@ -1,7 +1,7 @@
 SPECIFICATION Spec
 CONSTANTS
   Dev = {}
-  NSamp = 3
+  NSamp = 2
   EmitReplay = TRUE
   WithPairs = TRUE
   Ancs = {1, 2}
